@@ -237,6 +237,39 @@ func TestLimitsBoundaries(t *testing.T) {
 	}
 }
 
+// Upper bounds: every check is `len >= MAX` => reject. The reject side is cheap
+// (checks precede allocation); the accept side (MAX-1) is probed once.
+func TestLimitsUpperBounds(t *testing.T) {
+	big := make([]byte, 1<<27)
+	for _, c := range configs() {
+		L := LimitsFor(c.p, LevelOne)
+		e, n := big[:L.MinEntropy], big[:L.MinNonce]
+		mk := func(e, n, p []byte) error { _, err := c.lib(drbg.SECURITY_LEVEL_ONE, e, n, p); return err }
+		if mk(big[:L.MaxEntropy+1], n, nil) == nil || mk(e, big[:L.MaxNonce+1], nil) == nil || mk(e, n, big[:L.MaxPers+1]) == nil {
+			t.Errorf("%s: over-long entropy/nonce/personalization accepted", c.name)
+		}
+		d, _ := c.lib(drbg.SECURITY_LEVEL_ONE, e, n, nil)
+		if d.Reseed(big[:L.MaxEntropy+1], nil) == nil || d.Reseed(big[:L.MinReseedEntropy], big[:L.MaxAdditional+1]) == nil {
+			t.Errorf("%s: over-long reseed entropy/additional accepted", c.name)
+		}
+	}
+	if testing.Short() {
+		return
+	}
+	c := config{"Hash/NIST/SHA-256", Params{Kind: Hash, NewHash: sha256.New}}
+	L := LimitsFor(c.p, LevelOne)
+	d, err := c.lib(drbg.SECURITY_LEVEL_ONE, big[:L.MaxEntropy], big[:1], nil)
+	if err != nil {
+		t.Fatalf("entropy of MaxEntropy bytes rejected: %v", err)
+	}
+	if _, err := c.lib(drbg.SECURITY_LEVEL_ONE, big[:1], big[:L.MaxNonce], nil); err != nil {
+		t.Errorf("nonce of MaxNonce bytes rejected: %v", err)
+	}
+	if err := d.Reseed(big[:1], big[:L.MaxAdditional]); err != nil {
+		t.Errorf("additional of MaxAdditional bytes rejected: %v", err)
+	}
+}
+
 // Rule 1: exactly I successful Generate calls between seeds, strict >.
 func TestReseedCounterRule(t *testing.T) {
 	levels := []struct {
